@@ -246,19 +246,79 @@ Theorem C14_record_alert_not_resumed :
 Proof. exact record_alert_not_resumed. Qed.
 Print Assumptions C14_record_alert_not_resumed.
 
-(* A full handshake in which the client presented a certificate writes no session into the
-   server's store (entries can only disappear) and leaves the server's session id empty. *)
+(* A full handshake in which the client sent a Certificate message performs no operation on the
+   server's store and leaves the server's session id empty. *)
 Theorem C14_client_cert_not_stored :
   forall (K V : Type) (KB : secret -> N -> N -> K) (VD : bool -> secret -> N * N * bid -> V)
          (K_eqb : K -> K -> bool) (V_eqb : V -> V -> bool) (p : params) (cs ss : store),
     p_ccert p = true -> r_mode (conn K V KB VD K_eqb V_eqb p cs ss) = Full ->
-    forallb (fun o : mop => negb (is_set o)) (r_sops (conn K V KB VD K_eqb V_eqb p cs ss)) = true /\
-    (forall k : bid, get k (post_s ss (conn K V KB VD K_eqb V_eqb p cs ss)) = get k ss \/
-                     get k (post_s ss (conn K V KB VD K_eqb V_eqb p cs ss)) = None) /\
+    r_sops (conn K V KB VD K_eqb V_eqb p cs ss) = [] /\
+    post_s ss (conn K V KB VD K_eqb V_eqb p cs ss) = ss /\
     (o_out (r_s (conn K V KB VD K_eqb V_eqb p cs ss)) = Established ->
        o_sid (r_s (conn K V KB VD K_eqb V_eqb p cs ss)) = 0).
 Proof. exact client_cert_not_stored. Qed.
 Print Assumptions C14_client_cert_not_stored.
+
+(* What enters the SERVER's store (flight4Parse saves the session as its last step): only a full
+   handshake the server accepted writes a session - the client's Finished record opened under the
+   server's key block and its verify_data matched, neither the client-authentication policy nor
+   VerifyConnection refused, no client Certificate message - under this connection's session id and
+   master secret. *)
+Theorem C14_server_stores_only_verified :
+  forall (K V : Type) (KB : secret -> N -> N -> K) (VD : bool -> secret -> N * N * bid -> V)
+         (K_eqb : K -> K -> bool) (V_eqb : V -> V -> bool) (p : params) (cs ss : store) (k : bid) (v : sess),
+    In (MSet k v) (r_sops (conn K V KB VD K_eqb V_eqb p cs ss)) ->
+    r_mode (conn K V KB VD K_eqb V_eqb p cs ss) = Full /\
+    o_out (r_s (conn K V KB VD K_eqb V_eqb p cs ss)) = Established /\
+    k = p_newsid p /\ s_id v = p_newsid p /\ s_sec v = p_mss p /\ s_nil v = false /\
+    p_ccert p = false /\ p_fault p <> FSPolicy /\ p_fault p <> FSVerify /\ p_arr_c p = true /\
+    K_eqb (KB (p_mss p) (p_rc p) (p_rs p)) (KB (p_msc p) (p_rc p) (p_rs p)) = true /\
+    V_eqb (VD true (p_mss p) (p_rc p, p_rs p, p_newsid p)) (VD true (p_msc p) (p_rc p, p_rs p, p_newsid p)) = true.
+Proof. exact server_stores_only_verified. Qed.
+Print Assumptions C14_server_stores_only_verified.
+
+(* A connection the server did not accept (client refused by the authentication policy or by
+   VerifyConnection, Finished mismatch, client that never sends its Finished, any alert) leaves no
+   new entry: whatever the server resumes afterwards it would have resumed before.  (The repaired
+   defect: a client that omitted its Certificate and never completed could resume and bypass
+   RequireAndVerifyClientCert.) *)
+Theorem C14_refused_client_leaves_no_entry :
+  forall (K V : Type) (KB : secret -> N -> N -> K) (VD : bool -> secret -> N * N * bid -> V)
+         (K_eqb : K -> K -> bool) (V_eqb : V -> V -> bool) (p : params) (cs ss : store),
+    o_out (r_s (conn K V KB VD K_eqb V_eqb p cs ss)) <> Established ->
+    forall (k : bid) (v : sess),
+      get k (post_s ss (conn K V KB VD K_eqb V_eqb p cs ss)) = Some v -> get k ss = Some v.
+Proof. exact refused_client_leaves_no_entry. Qed.
+Print Assumptions C14_refused_client_leaves_no_entry.
+
+Theorem C14_refused_client_cannot_resume :
+  forall (K V : Type) (KB : secret -> N -> N -> K) (VD : bool -> secret -> N * N * bid -> V)
+         (K_eqb : K -> K -> bool) (V_eqb : V -> V -> bool) (p : params) (cs ss : store)
+         (p' : params) (sid : bid) (os : sess),
+    o_out (r_s (conn K V KB VD K_eqb V_eqb p cs ss)) <> Established ->
+    srv_lookup p' (post_s ss (conn K V KB VD K_eqb V_eqb p cs ss)) sid = Some os ->
+    srv_lookup p' ss sid = Some os.
+Proof. exact refused_client_cannot_resume. Qed.
+Print Assumptions C14_refused_client_cannot_resume.
+
+(* Over histories: starting from an empty server store (no other writer), EVERY session in the
+   server's store after ANY history was created by a full handshake of that history which the
+   server accepted, with a verified client Finished, and holds the master secret both sides derived
+   in that handshake. *)
+Theorem C14_server_sessions_all_verified :
+  forall (K V : Type) (KB : secret -> N -> N -> K) (VD : bool -> secret -> N * N * bid -> V)
+         (K_eqb : K -> K -> bool) (V_eqb : V -> V -> bool),
+    reflects V_eqb -> VD_injective VD ->
+    forall (ps : list params) (cs : store) (k : bid) (v : sess),
+      get k (snd (final K V KB VD K_eqb V_eqb (map Conn ps) cs [])) = Some v ->
+      exists e : entry K, In e (run K V KB VD K_eqb V_eqb (map Conn ps) cs []) /\
+        r_mode (e_r e) = Full /\ o_out (r_s (e_r e)) = Established /\
+        k = p_newsid (e_p e) /\ s_sec v = p_mss (e_p e) /\ s_sec v = p_msc (e_p e) /\
+        p_fault (e_p e) <> FSPolicy /\ p_fault (e_p e) <> FSVerify /\ p_ccert (e_p e) = false /\
+        V_eqb (VD true (p_mss (e_p e)) (p_rc (e_p e), p_rs (e_p e), p_newsid (e_p e)))
+              (VD true (p_msc (e_p e)) (p_rc (e_p e), p_rs (e_p e), p_newsid (e_p e))) = true.
+Proof. exact server_sessions_all_verified. Qed.
+Print Assumptions C14_server_sessions_all_verified.
 
 (* Sessions enter the client's store only from a full handshake the client completed, with this
    connection's session id and master secret; an abbreviated handshake writes nothing. *)
